@@ -341,6 +341,26 @@ class Driver:
     def ask1(self, line):
         return self.ask([line])[0]
 
+    def ask_tolerant(self, lines, crash_dir=None):
+        """like `ask`, but a batch on which the driver dies is repeated one request at a time; a request that still kills the driver
+        gets the reply None and is written to `crash_dir` (diagnosis).  For callers that can count an unanswered request."""
+        try:
+            return self.ask(lines)
+        except InfraError:
+            out = []
+            for l in lines:
+                try:
+                    out.append(self.ask([l])[0])
+                except InfraError as e:
+                    out.append(None)
+                    if crash_dir:
+                        os.makedirs(crash_dir, exist_ok=True)
+                        import hashlib
+
+                        with open(os.path.join(crash_dir, "driver-crash-%s.txt" % hashlib.sha1(l.encode()).hexdigest()[:12]), "w") as f:
+                            f.write("# %s\n%s\n" % (str(e).replace("\n", " ")[:300], l))
+            return out
+
 
 def esc(s):
     """Encode one protocol field."""
